@@ -31,8 +31,52 @@ pub fn run(a: &Args) -> Report {
     rep.merge(lr);
     let cr = parallel(a.n(400, 4000), a.threads, |i, rep| relay_chain_case(seed, i as u64, rep));
     rep.merge(cr);
+    // sender obligations that depend on a random draw of the sender: thousands of draws per cipher
+    let pr = parallel(32, a.threads, |i, rep| payloadless_requests(seed, i as u64, a.n(600, 6000), rep));
+    rep.merge(pr);
     rep.extra.insert("trusted_base".into(), json!(["RustCrypto primitive crates (aes, aes-gcm, chacha20poly1305, blake3, md-5, sha1, sha2, sha3, hkdf, crc32fast)", "refimpl written from SIP004/SIP022/VMess/Trojan specifications; self-tested against embedded vectors"]));
     rep
+}
+
+/// Shadowsocks 2022 requests WITHOUT initial payload, as the client's relay always sends them (its first item names the
+/// target and is empty): SIP022 obliges the sender to pad such a request and the receiver to reject one that has neither
+/// payload nor padding. The padding length is a random draw of the sender, so one request proves nothing: `n` requests per
+/// shard, each through a fresh real client codec, each read by the strict reference server.
+fn payloadless_requests(seed: u64, shard: u64, n: usize, rep: &mut Report) {
+    let mut rng = Rng::derive(seed, 0xC03D, shard);
+    let methods: Vec<_> = refimpl::ss::ALL_METHODS.iter().filter(|m| m.is_2022()).collect();
+    let m = **rng.pick(&methods);
+    let users = if m.supports_eih() { *rng.pick(&[0usize, 1]) } else { 0 };
+    let cfg = Cfg::random(&mut rng, Proto::Ss(m), users);
+    let now = 1_700_000_000 + rng.below(1000);
+    pin_clock(now);
+    let Ok(shared) = real::client_shared(&cfg) else { return };
+    let mut smallest = usize::MAX;
+    let mut largest = 0usize;
+    for k in 0..n {
+        let target = gen::random_addr(&mut rng);
+        let Ok(mut client) = real::client_codec(&cfg, &shared, &to_address(&target)) else { return };
+        let mut dst = BytesMut::new();
+        if guarded(|| client.encode(b"", &mut dst)).is_err() {
+            continue; // judged by the differential cases
+        }
+        let mut server = RefServer::new(&cfg, now, ServerOpts::default());
+        rep.mon("payloadless_requests_read_by_the_reference", 1);
+        match server.read(&dst) {
+            Ok(_) => {
+                smallest = smallest.min(dst.len());
+                largest = largest.max(dst.len());
+            }
+            Err(e) => {
+                let sig = format!("C03|real-client->ref-server|{}|payloadless-request:ref-rejects:{}", cfg.proto.name(), normalise(&e.to_string()));
+                rep.violation(sig, format!("{}: a request without initial payload is refused by the reference server: {e}", cfg.proto.name()), json!({"seed": seed, "shard": shard, "draw": k, "cfg": cfg.describe(), "wire": hex_short(&dst), "wire_len": dst.len()}));
+            }
+        }
+    }
+    rep.case(&(seed, "payloadless", shard), true);
+    if smallest != usize::MAX {
+        rep.extra.insert(format!("payloadless_request_sizes:{}:{}", cfg.proto.name(), shard), json!([smallest, largest]));
+    }
 }
 
 fn fail_sym(f: &Fail) -> String {
